@@ -595,7 +595,7 @@ def full_api_histories(rep, seed, n=60):
         rep.replayed(1)
         probe_begin()
         try:
-            rec_kind = rnd.choice(["arr", "utpm"])
+            rec_kind = rnd.choice(["arr", "utpm"] if f not in (p_rational, p_const_into_buffer) else ["arr", "utpm", "iarr", "iarr"])
             x0 = numpy.array([0.3, 0.6, 0.9, 0.5]) if rec_kind == "arr" else algopy.UTPM(numpy.array([[[0.3, 0.6, 0.9, 0.5]]]))
             cg = record(f, x0)
             # reference: a fresh graph, one forward, one sweep
@@ -969,6 +969,14 @@ def full_api_replays(rep, seed, n=60):
         b[1] = x[1] - x[3]
         return algopy.sum(x * x * z[0]) + algopy.dot(x[:2], z) * x[3] - x[1] / (x[2] + 2) + algopy.sum(b * b[::-1])
 
+    def p_const_into_buffer(x, z):
+        # non-integral constants written into a buffer whose element type comes from the input
+        b = algopy.zeros(3, dtype=x)
+        b[0] = 0.5
+        b[1] = x[1] * 2.5
+        b[2] = x[0] / 4
+        return algopy.sum(b * x[:3]) + z[0] * 0.25 + b[0] * z[1]
+
     def p_keywords(x, z):
         # module-level functions called with their non-default keyword / optional arguments on traced operands (the tracer's
         # triu / tril / diag take no offset k: an explicit TypeError, not generated)
@@ -979,12 +987,12 @@ def full_api_replays(rep, seed, n=60):
                 + algopy.sum(algopy.diag(A)) + algopy.sum(algopy.sum(A, axis=1) * z) + algopy.sum(algopy.tile(z, (2, 1)) * A))
 
     progs = [p_pow_traced, p_buffer, p_fft_axis, p_views, p_linalg, p_consts, p_sum_axes, p_special,
-             p_reflected, p_const_left_linalg, p_shape_props, p_zeros_ones_like, p_factorizations, p_det_family, p_rational, p_keywords]
+             p_reflected, p_const_left_linalg, p_shape_props, p_zeros_ones_like, p_factorizations, p_det_family, p_rational, p_keywords, p_const_into_buffer]
     for it in range(n):
         f = progs[it % len(progs)]
         order = rnd.choice(["xz", "zx"])           # the order in which the independents are LISTED
         late_z = rnd.random() < 0.5                # z is wrapped after operations on x have been recorded
-        rec_kind = rnd.choice(["arr", "utpm"])
+        rec_kind = rnd.choice(["arr", "utpm"] if f not in (p_rational, p_const_into_buffer) else ["arr", "utpm", "iarr", "iarr"])
         sig = "full-api replay [%s]" % f.__name__
         rep.case(("fullapi-replay", f.__name__, it), nontrivial=True); rep.replayed(1)
         probe_begin()
@@ -992,6 +1000,8 @@ def full_api_replays(rep, seed, n=60):
             x0 = numpy.array([0.3, 0.6, 0.9, 0.5]); z0 = numpy.array([1.2, 0.7])
             if rec_kind == "utpm":
                 x0 = UTPM(x0.reshape(1, 1, 4)); z0 = UTPM(z0.reshape(1, 1, 2))
+            elif rec_kind == "iarr":       # recorded with integer-typed plain arrays
+                x0 = numpy.array([3, 2, 5, 1]); z0 = numpy.array([2, 3])
             cg = algopy.CGraph()
             fx = algopy.Function(x0)
             if late_z:
@@ -1007,7 +1017,7 @@ def full_api_replays(rep, seed, n=60):
             cg.independentFunctionList = [fx, fz] if order == "xz" else [fz, fx]
             cg.dependentFunctionList = [fy]
             for rep_i in range(3):
-                kind = rnd.choice(["arr", "utpm"] if f is not p_rational else ["carr", "iarr", "cutpm", "arr", "utpm"])
+                kind = rnd.choice(["arr", "utpm"] if f not in (p_rational, p_const_into_buffer) else ["carr", "iarr", "cutpm", "arr", "utpm"])
                 if kind == "arr":
                     xa = numpy.array([rnd.uniform(0.2, 1.2) for _ in range(4)]); za = numpy.array([rnd.uniform(0.5, 1.5) for _ in range(2)])
                 elif kind == "carr":      # plain complex arrays
